@@ -47,13 +47,15 @@ claim("C03", "path-sensitive abstract evaluation of the typed HIR over uninterpr
       "DIDUrlQuery::matches requires DID equality when present and both fragments equal.",
       "truth of the conjunction on concrete tokens (with C01, C10, C13); first-match semantics of resolve_method.", "DESIGN.md §7 C03")
 
-claim("C19", "path-sensitive abstract evaluation of the typed HIR over uninterpreted atoms (decision-table derivation, helpers inlined) + MIR who-may-write enumeration of the inner Vec + allowed-primitive table + path-valuation guards + HIR shape of change()/remove()/constructors + serde wiring",
-      "Decides for all operation sequences the per-operation shape the list model depends on: the inner Vec is private and mutated only by append/prepend/change/remove/clear (three reviewed *_mut "
-      "escapes), each using only its allowed Vec primitive (e.g. order-preserving Vec::remove, never swap_remove); push/insert(0) are reachable only on the !contains edge and the refusal path mutates "
-      "nothing, result flags match; contains is key equality over the whole Vec; change() takes the first match, drains index.., keeps !f entries, re-appends them and inserts data at that index; "
-      "replace/update predicates; TryFrom<Vec> rejects on the first refused append, FromIterator keeps first occurrences, serde try_from = Vec<T>; OneOrSetInner is private, Set is built only at "
-      "reviewed sites after len checks, TryFrom<Vec> for OneOrSet goes through the duplicate-checking OrderedSet::try_from, empty sets are rejected on deserialisation; OneOrMany normalisation.",
-      "order/content equality with a list model over whole histories; KeyComparable impls of element types.", "DESIGN.md §7 C19")
+claim("C19", "path-sensitive abstract evaluation of the typed HIR over uninterpreted atoms, here with concrete collection shapes: a bounded abstract model check of every operation and constructor against a duplicate-free list model in all key-equality worlds + MIR who-may-write enumeration of the inner Vec + serde wiring",
+      "Decides, for sets of 0..4 generic elements (0..5 in the thorough tier) and every way the KeyComparable::key comparisons can come out: append/prepend/update/replace/remove/clear return the "
+      "flag/value and leave the element sequence that a duplicate-free list model gives; on every path keys stay unique, surviving elements keep their order and a refused operation changes nothing; "
+      "TryFrom<Vec> gives Err(OrderedSetDuplicate) exactly when two inputs share a key, FromIterator keeps first occurrences; OneOrSet::{try_from(Vec), new_set, try_from(OrderedSet), map, try_map, append} "
+      "and OneOrMany::{from(Vec), from_iter} agree with their model (empty → Err, duplicates → Err, one → One, otherwise Set/Many in order; no path panics). Elements are opaque terms: nothing is executed, "
+      "the evaluator enumerates the decision table. Also: the inner Vec is private and mutated only by the modelled operations (or private helpers reachable only from them) and three reviewed *_mut "
+      "escapes; OneOrSetInner is private and its Set variant built only by modelled functions; serde try_from = Vec<T>; empty sets rejected on deserialisation. Histories compose from single "
+      "operations because each re-establishes the invariant (pairwise distinct keys) it assumes.",
+      "agreement with the list model for sets larger than the evaluation bound; KeyComparable impls of element types.", "DESIGN.md §7 C19, §12.5")
 
 claim("C08", "path-sensitive abstract evaluation of the typed HIR over uninterpreted atoms (decision-table derivation, helpers inlined) + HIR argument-provenance identity between signed and emitted operands + format-template decoding + char-class table extraction vs spec + guard/setter inventory of create_jws",
       "Decides for all payloads/headers/options on the producing side: every signing_input field is the result of the single create_message formula; in each encoder the protected segment "
@@ -125,29 +127,30 @@ claim("C14", "path-sensitive abstract evaluation of the typed HIR over uninterpr
       "requirement on id and controller only; the rewritten data is re-validated through CoreDocument::try_from.",
       "JSON round trip of arbitrary documents; documents mentioning the reserved placeholder.", "DESIGN.md §7 C14")
 
-claim("C15", "MIR guard-span analysis (single exclusive acquisition, both operations through the guard, no release in between, insert only on the absent edge) + HIR structural dominance of the validation steps + result discipline + decision extraction",
-      "Decides on every path of the shipped stores: insert_key_id (mem store and Stronghold) acquires exactly one exclusive guard, performs the membership test and the insertion through it, never "
-      "drops it in between and reaches the insertion only on the not-present edge — the structural necessary condition for `a second insert for a digest fails, also under racing threads`; generate "
-      "requires key/alg compatibility, sets alg = requested and kid = thumbprint of the returned key before projecting (public projection itself: C18-R4); insert requires the key type, is_private(), "
-      "an alg that is present, parsed (error propagated, never swallowed) and compatible, all before the store write; sign/delete/get_key_id/delete_key_id report a missing id; the maps are private "
-      "behind an async RwLock and no API returns a guard.",
-      "freshness of random key ids; signature/verification pairing (cryptography); actual thread schedules.", "DESIGN.md §7 C15")
+claim("C15", "MIR guard-span analysis (single exclusive acquisition, both operations through the guard, insert only on the absent edge) + path-sensitive abstract evaluation of the store operations on a concrete two-entry map against a map model + HIR structural dominance of the validation steps in generate/insert + result discipline",
+      "Decides: insert_key_id acquires one exclusive guard once and tests and inserts through it (the structural necessary condition of the concurrent-insert clause); on a map {k0→v0, k1→v1} with a symbolic "
+      "argument key, in the worlds key = k0 | k1 | absent: insert_key_id refuses a present key (KeyIdAlreadyExists, map unchanged) and otherwise adds exactly (key, value); get_key_id / delete_key_id / delete "
+      "report KeyIdNotFound / KeyNotFound for an absent id and otherwise return / remove exactly the entry stored under it; exists answers membership; sign can only succeed by expanding the JWK stored under "
+      "the given id and signing the given data with it; nothing else in the map changes. generate: key/alg compatibility ✓ dominates key creation, alg = requested alg, kid = RFC 7638 thumbprint, set before "
+      "the public projection is returned; insert: key type ✓, is_private() ✓, alg present ∧ parsed ∧ compatible ✓ dominate the store write. The stores keep their maps behind a private async RwLock.",
+      "freshness of random key ids; signature/verification pairing (cryptography); actual thread schedules.", "DESIGN.md §7 C15, §12.5")
 
-claim("C20", "path-sensitive abstract evaluation of the typed HIR over uninterpreted atoms (decision-table derivation, helpers inlined) + HIR argument provenance + MIR success-edge dominance of the dispatch + structural-identity pairing inside each future + sibling structural-signature comparison + type-shape (no interior mutability, sealed trait)",
-      "Decides for all handler tables/DID lists: resolve looks the handler up under did.method() in self.command_map, applies it — only on the Some edge of that lookup — to did.as_str(), and reports "
-      "UnsupportedMethodError otherwise; attach_handler registers Command::new(handler) under the given method for both command kinds, attach_did_jwk_handler under DIDJwk::METHOD with expand_did_jwk; "
-      "resolve_multiple de-duplicates through a HashSet, each pushed async block resolves its own loop variable with self.resolve and pairs the result with that same DID (no positional zip), results go "
-      "through try_collect into a HashMap; Resolver has no interior mutability and resolve takes &self; the two Command constructors are structurally identical (parse with D::try_from → DIDParsingError, "
-      "handler(parsed DID), Into/HandlerError) and apply calls the stored function; the Command trait is sealed; did:jwk expansion uses exactly did.jwk() with fragment \"0\".",
-      "actual interleavings of the polled futures; handler determinism.", "DESIGN.md §7 C20")
+claim("C20", "path-sensitive abstract evaluation of the typed HIR over uninterpreted atoms with a concrete handler map and concrete DID lists: dispatch table, registration postcondition, resolve_multiple against a map model under both completion orders, command decision tables + type-level checks (no interior mutability, sealed Command trait)",
+      "Decides on a handler table {m0→c0, m1→c1}: resolve applies exactly the command stored under did.method() to did.as_str() and returns its result; no entry → Err(UnsupportedMethodError) and no handler "
+      "applied; attach_handler (both command kinds) leaves map[method] = Command::new(handler), replacing an earlier entry and touching no other; attach_did_jwk_handler registers |d| expand_did_jwk(d) under "
+      "DIDJwk::METHOD. resolve_multiple on 0..3 input DIDs × every equality pattern among them × every success/failure pattern of self.resolve × both completion orders of the futures (FIFO/LIFO): one "
+      "resolve per distinct DID; all succeed → a map with exactly one entry per distinct DID whose value is the document resolved for that same DID; one fails → Err. Command::new(handler) then apply(input): "
+      "parse failure → DIDParsingError without calling the handler; otherwise the handler is called once with the parsed DID, Ok returned, Err → HandlerError; identical for both kinds. expand_did_jwk from the "
+      "recorded builder calls; TryFrom<DIDJwk> = new_from_jwk(did, did.jwk(), Some(\"0\")). Resolver has no interior mutability; resolve takes &self.",
+      "real interleavings of the polled futures (the futures are evaluated eagerly; two extreme completion orders are modelled); handler determinism.", "DESIGN.md §7 C20, §12.5")
 
-claim("C09", "HIR exit inventory with effect-before-exit and compensation-in-branch analysis (linear resource / compensation rule) + argument provenance of the undo calls + decision table of the deletion results + ignored-result inventory",
-      "Decides for every fault pattern (every error exit on every path) of both macro instantiations: in generate_method each error exit after key generation goes through try_undo_key_generation(storage, "
-      "&key_id, _), the one after a successful insert_method first removes the method, the only uncompensated `?` exits are the two reviewed infallible ones, effects are ordered generate → insert_method → "
-      "insert_key_id; try_undo_key_generation deletes exactly the key, consults no other storage call, and returns UndoOperationFailed iff the deletion failed; in purge_method each of the six error exits after "
-      "the removal re-inserts (method, scope) exactly as returned by remove_method_and_scope or reports UndoOperationFailed, the four-row deletion table is complete and row (Err, Ok) re-inserts the key id "
-      "before the method; only the reviewed results are ignored; the trait is sealed. remove_method_and_scope drops removed references, so a failing purge loses them: known findings D10a/b (probe in findings/).",
-      "the fault × occurrence enumeration as an experiment; atomicity of concrete stores.", "DESIGN.md §7 C09")
+claim("C09", "path-sensitive abstract evaluation of the typed HIR over uninterpreted atoms: the complete fault table of generate_method / purge_method (every storage and document call an oracle that may succeed or fail, futures::join! evaluated) with an effect ledger per path + argument provenance of the undo calls + ignored-result inventory + sealed trait",
+      "Decides for every failure pattern of the storage calls: generate_method ends with all of {key generated, method inserted, key id recorded} and Ok, or with none of them (key deleted again ✓, method "
+      "removed again, no key id) and the original error, or with Err(UndoOperationFailed) exactly when the key deletion itself failed; purge_method ends with method, key and key id all gone and Ok, or all "
+      "restored (method re-inserted under the (method, scope) pair remove_method_and_scope returned, key id re-inserted with the same (digest, key id)) and the original error, or UndoOperationFailed; the "
+      "keys deleted/recorded are the generated/recorded ones; try_undo_key_generation deletes exactly the given key and reports a failed deletion; everything remove_method_and_scope takes out is returned; "
+      "`let _ =` results on undo paths are the reviewed ones; JwkDocumentExt is sealed to the two document types. The two `?` exits after key generation that have no undo are reviewed as infallible, by name.",
+      "the fault × occurrence enumeration as an experiment against real stores; atomicity of concrete stores; two known findings (relationship references dropped by a failing purge).", "DESIGN.md §7 C09, §12.5")
 
 claim("C05", "MIR panic inventory (Assert terminators, diverging calls, frozen panic-API and dependency-panic tables) with per-site discharge: constant folding, upper-bound interval analysis, HIR guard dominance tied to the site's operands, constructor gates, cross-property rule dependencies, reviewed table with site counts; unsafe-code inventory",
       "Decides, for every non-test body of the library crates (closures and async bodies included), that each construct that can panic — bounds/overflow/division Assert, "
